@@ -106,11 +106,13 @@ class Run:
             mod.configure(ctx, R)
         self.ex = Executor(ctx)
 
-    def generate(self):
+    def generate(self, only_quals=None):
         self.functions = []
         only = os.environ.get('VERIF_ONLY_FUNC')      # development aid: verify a single function (never used by the registered commands)
         for c in self.R.contracts.values():
             if only and only not in c.qualname:
+                continue
+            if only_quals is not None and c.qualname not in only_quals:
                 continue
             if self.prop in c.props and c.verify:
                 f = self.repo.func(c.module, c.qualname)
@@ -118,14 +120,45 @@ class Run:
                 self.functions.append({'function': '%s:%s' % (c.module, c.qualname),
                                        'lines': list(f.lines), 'sha256': f.sha[:16]})
         for lem in self.R.lemmas:
-            if only:
+            if only or only_quals is not None:
                 break
             if self.prop in lem.props:
                 self.ex.verify_lemma(lem, self.prop)
-        if hasattr(self.mod, 'static_checks'):
+        if hasattr(self.mod, 'static_checks') and only_quals is None:
             self.static = self.mod.static_checks(self.repo)
 
-    def crosscheck(self):
+    def inherit(self):
+        """INHERIT = [(owner property, [qualnames])]: functions this property's argument passes through whose contracts are owned and
+        verified by another check.  Their obligations are generated and discharged HERE as well (same contracts, same source tree), so a
+        change inside such a callee is reported by this check too and not only by the owner's."""
+        self.inherited = []
+        todo = list(getattr(self.mod, 'INHERIT', [])) + (list(getattr(self.mod, 'INHERIT_THOROUGH', [])) if self.tier == 'thorough' else [])
+        for p2, quals in todo:
+            if os.environ.get('VERIF_ONLY_FUNC'):
+                break
+            sub = Run(p2, self.tier, self.seed)
+            sub.build()
+            sub.generate(only_quals=set(quals))
+            got = set(f['function'].split(':')[1] for f in sub.functions)
+            missing = sorted(set(quals) - got)
+            if missing:
+                raise VCError('inherited functions have no verified contract under %s: %s' % (p2, missing))
+            sub.discharge()
+            if not os.environ.get('VERIF_NO_CONCRETE'):
+                sub.crosscheck(only_quals=set(quals))
+            for r in sub.results:
+                parts = r.ob.oid.split('/')
+                r.ob.oid = '/'.join([self.prop] + parts[1:-1] + ['via-%s:%s' % (p2, parts[-1])])
+            self.results.extend(sub.results)
+            for f in sub.functions:
+                f['verified_with'] = 'contracts of ' + p2
+            self.functions.extend(sub.functions)
+            self.ctx.assumed |= set('[%s] %s' % (p2, a) for a in sub.ctx.assumed)
+            for k, v in (getattr(sub, 'concrete', {}) or {}).items():
+                self.concrete.setdefault(k, v)
+            self.inherited.append({'from': p2, 'functions': sorted(got), 'obligations': len([r for r in sub.results if r.ob.expect == 'unsat'])})
+
+    def crosscheck(self, only_quals=None):
         """bounded concrete check of every function under contract (same contract text, real code)"""
         import sys
         from . import crosscheck, source
@@ -135,6 +168,8 @@ class Run:
         out = {}
         skip = set(getattr(self.mod, 'NO_CONCRETE', ()))
         for c in self.R.contracts.values():
+            if only_quals is not None and c.qualname not in only_quals:
+                continue
             if self.prop in c.props and c.verify and c.key not in skip and c.qualname not in skip and '*' not in skip:
                 f = self.repo.func(c.module, c.qualname)
                 out['%s:%s' % c.key] = crosscheck.run_contract(c, f, self.R.spec_funcs, getattr(self.R, 'generators', {}),
@@ -149,7 +184,7 @@ class Run:
         return ax
 
     def discharge(self):
-        timeout = 60 if self.tier == 'quick' else 240
+        timeout = 45 if self.tier == 'quick' else 240
         timeout = int(os.environ.get('VERIF_SOLVER_TIMEOUT', timeout))
         ax = self.axioms()
         self.results = solve.discharge(self.ctx.obligations, ax, timeout=timeout, jobs=int(os.environ.get('VERIF_JOBS', 12)),
@@ -181,6 +216,14 @@ def run_property(prop, tier='quick', seed=0, replay=None):
             run.results = []
         if not os.environ.get('VERIF_NO_CONCRETE'):
             run.crosscheck()
+        if not hasattr(run, 'concrete'):
+            run.concrete = {}
+        if getattr(run.mod, 'INHERIT', None) and status == 0:
+            try:
+                run.inherit()
+            except VCError as e:
+                fault = ('undecided', 'VCError (inherited functions): %s' % e)
+                status = 2
         if hasattr(run.mod, 'bounded_checks') and (tier == 'thorough' or getattr(run.mod, 'BOUNDED_IN_QUICK', False)):
             run.bounded = run.mod.bounded_checks(run, tier, seed)
     except VCError as e:
@@ -216,9 +259,7 @@ def run_property(prop, tier='quick', seed=0, replay=None):
             conc_err.append('%s: %s' % (fn, e))
         for fl in res['failures']:
             conc_fail.setdefault(fn, []).append(fl)
-    if conc_err and status == 0:
-        fault = ('checker-fault', 'concrete contract evaluation failed: ' + ' | '.join(conc_err)[:1500])
-        status = 3
+    harness_fault = bool(conc_err) and status == 0
     # undecided obligations: search harder for a concrete failing input of that function
     if unknown and concrete and not os.environ.get('VERIF_NO_CONCRETE'):
         from . import crosscheck as _cc
@@ -327,6 +368,14 @@ def run_property(prop, tier='quick', seed=0, replay=None):
         lines.append('VIOLATION property=%s replay=%s bounded=%s' % (prop, path, name))
         status = 1 if status in (0, 2) else status
 
+    # a crash of the concrete harness (generator or evaluator) is a checker fault - unless a violation is reported anyway (a generator
+    # that drives the real code may die in exactly the defect the refuted obligation names)
+    if harness_fault and status in (0, 2):
+        fault = ('checker-fault', 'concrete contract evaluation failed: ' + ' | '.join(conc_err)[:1500])
+        status = 3
+    elif conc_err and status == 1:
+        lines.append('note: concrete harness stopped early next to the reported violation: ' + ' | '.join(e.strip().splitlines()[-1] for e in conc_err)[:300])
+
     n_obl = len(real) + len(run.static)
     n_dis = len(discharged) + len([s for s in run.static if s[1]])
     by_solver = {}
@@ -391,6 +440,9 @@ def run_property(prop, tier='quick', seed=0, replay=None):
             'bound': 'random small-scope inputs by type (pool of 9 names in 2 spellings, 7 record kinds, TTL in '
                      '{0,1,2,120,1124,1125,4500}, caches of <= 5 records), N per function = VERIF_CONCRETE_N',
         }
+    if getattr(run, 'inherited', None):
+        cov['inherited_functions'] = {'note': 'functions on this property\'s path whose contracts are owned by another check; their obligations are '
+                                              'generated and discharged in this run too (counted in obligations/discharged)', 'from': run.inherited}
     if run.bounded:
         cov['bounded'] = {k: {kk: vv for kk, vv in v.items() if kk != 'violations'} for k, v in run.bounded.items()}
         cov['bounded_note'] = 'bounded stand-ins are NOT counted in obligations/discharged'
